@@ -42,6 +42,17 @@ class BrokenStream:
         return self.data[:size if size and size > 0 else None]
 
 
+def implicit_retry(name, a, form):
+    """Operator forms always wait for the lock (retry=True inside the library)."""
+    if name == 'set' and form == 1 and not a.get('ttl') and not a.get('tag'):
+        return True
+    if name == 'get' and a.get('mk') == 'KeyError' and form != 1:
+        return True
+    if name == 'delete' and a.get('mk') == 'KeyError':
+        return True
+    return False
+
+
 class ApiAdapter:
     """Abstract operation -> real API call on a cache object -> normalised result."""
 
@@ -56,8 +67,8 @@ class ApiAdapter:
             return self._call(c, name, a, form)
         except (KeyError, TypeError, ValueError, IndexError, AssertionError) as exc:
             return R(type(exc).__name__)
-        except self.dc.Timeout:
-            return R('Timeout')
+        except self.dc.Timeout as exc:
+            return R('Timeout', [exc.args[0]] if exc.args and isinstance(exc.args[0], int) else [])
         except interpose.sqlite3.Error as exc:
             return R(type(exc).__name__)
         except (OSError, UnicodeError) as exc:
@@ -77,6 +88,8 @@ class ApiAdapter:
 
     def _payload(self, res, fx, ft, item=False):
         """Normalise (value[, expire_time][, tag]) or ((key, value)[, ...])."""
+        if res is SENT:
+            return None             # sharded caches hand back the bare default on a lock timeout
         if fx and ft:
             main, e, t = res
             extra = [exp_model(e), tag_model(t)]
@@ -104,6 +117,7 @@ class ApiAdapter:
 
     def _call(self, c, name, a, form):
         km, vm = self.km, self.vm
+        rt = {'retry': True} if a.get('retry') else {}
         if name == 'tick':
             self.clock.advance(a.get('n', 1))
             return R('none')
@@ -115,37 +129,37 @@ class ApiAdapter:
                 c[k] = pv
                 return R('true')
             if form == 3 and type(pv) is bytes:
-                r = getattr(c, name)(k, BrokenStream(pv), expire=ttl, read=True, tag=tag)
+                r = getattr(c, name)(k, BrokenStream(pv), expire=ttl, read=True, tag=tag, **rt)
             elif form == 2 and type(pv) is bytes:
-                r = getattr(c, name)(k, io.BytesIO(pv), expire=ttl, read=True, tag=tag)
+                r = getattr(c, name)(k, io.BytesIO(pv), expire=ttl, read=True, tag=tag, **rt)
             else:
-                r = getattr(c, name)(k, pv, expire=ttl, tag=tag)
+                r = getattr(c, name)(k, pv, expire=ttl, tag=tag, **rt)
             return R('true' if r is True else 'false' if r is False else 'weird')
         if name == 'touch':
-            r = c.touch(km.to_py(a['k']), expire=ttl_py(a['ttl']))
+            r = c.touch(km.to_py(a['k']), expire=ttl_py(a['ttl']), **rt)
             return R('true' if r is True else 'false' if r is False else 'weird')
         if name == 'incr':
             k = km.to_py(a['k'])
             df = a['df'][0] if a['df'] else None
             if form == 1:
-                r = c.decr(k, -a['d'], default=df)
+                r = c.decr(k, -a['d'], default=df, **rt)
             else:
-                r = c.incr(k, a['d'], default=df)
-            return R('int', [r]) if type(r) is int else R('weird')
+                r = c.incr(k, a['d'], default=df, **rt)
+            return R('int', [r]) if type(r) is int else R('none') if r is None else R('weird')
         if name == 'get':
             k = km.to_py(a['k'])
             fx, ft = bool(a['fx']), bool(a['ft'])
             if a['mk'] == 'KeyError':
                 r = c.read(k) if form == 1 else c[k]
                 return R('val', self._payload(r, False, False))
-            r = c.get(k, default=SENT, expire_time=fx, tag=ft, read=(form == 2))
+            r = c.get(k, default=SENT, expire_time=fx, tag=ft, read=(form == 2), **rt)
             p = self._payload(r, fx, ft)
             return R('miss') if p is None else R('val', p)
         if name == 'contains':
             return R('true' if (km.to_py(a['k']) in c) else 'false')
         if name == 'pop':
             fx, ft = bool(a['fx']), bool(a['ft'])
-            r = c.pop(km.to_py(a['k']), default=SENT, expire_time=fx, tag=ft)
+            r = c.pop(km.to_py(a['k']), default=SENT, expire_time=fx, tag=ft, **rt)
             p = self._payload(r, fx, ft)
             return R('miss') if p is None else R('val', p)
         if name == 'delete':
@@ -153,16 +167,16 @@ class ApiAdapter:
             if a['mk'] == 'KeyError':
                 del c[k]
                 return R('true')
-            r = c.delete(k)
+            r = c.delete(k, **rt)
             return R('true' if r is True else 'false' if r is False else 'weird')
         if name == 'clear':
-            return R('int', [c.clear()])
+            return R('int', [c.clear(**rt)])
         if name == 'evict':
-            return R('int', [c.evict(tag_py(a['tag']))])
+            return R('int', [c.evict(tag_py(a['tag']), **rt)])
         if name == 'expire':
-            return R('int', [c.expire()])
+            return R('int', [c.expire(**rt)])
         if name == 'cull':
-            return R('int', [c.cull()])
+            return R('int', [c.cull(**rt)])
         if name == 'push':
             pv = self._store_args(a)
             prefix = None if not a['p'] else ''.join(chr(x) for x in a['p'])
@@ -171,18 +185,18 @@ class ApiAdapter:
                 r = c.push(io.BytesIO(pv), prefix=prefix, side=side, expire=ttl_py(a['ttl']),
                            read=True, tag=tag_py(a['tag']))
             else:
-                r = c.push(pv, prefix=prefix, side=side, expire=ttl_py(a['ttl']), tag=tag_py(a['tag']))
+                r = c.push(pv, prefix=prefix, side=side, expire=ttl_py(a['ttl']), tag=tag_py(a['tag']), **rt)
             return R('key', km.to_model(r))
         if name in ('pull', 'peek'):
             prefix = None if not a['p'] else ''.join(chr(x) for x in a['p'])
             side = 'back' if a['back'] else 'front'
             fx, ft = bool(a['fx']), bool(a['ft'])
-            r = getattr(c, name)(prefix=prefix, default=(SENT, SENT), side=side, expire_time=fx, tag=ft)
+            r = getattr(c, name)(prefix=prefix, default=(SENT, SENT), side=side, expire_time=fx, tag=ft, **rt)
             p = self._payload(r, fx, ft, item=True)
             return R('miss') if p is None else R('item', p)
         if name == 'peekitem':
             fx, ft = bool(a['fx']), bool(a['ft'])
-            r = c.peekitem(last=bool(a['last']), expire_time=fx, tag=ft)
+            r = c.peekitem(last=bool(a['last']), expire_time=fx, tag=ft, **rt)
             return R('item', self._payload(r, fx, ft, item=True))
         if name == 'len':
             return R('int', [len(c)])
